@@ -1,8 +1,8 @@
 (* C11 — A collection is accepted exactly when it describes one running order. *)
-From Coq Require Import List Bool.
+From Coq Require Import List Bool Permutation.
 Import ListNotations.
 From Mos Require Import Str Xml Outcome Classify Messages Collection.
-From Mos.proofs Require Import CollFacts.
+From Mos.proofs Require Import CollFacts CollOrder.
 
 Theorem C11_accept_iff :
   forall (rs : list reader) (inc : bool),
@@ -26,3 +26,12 @@ Theorem C11_selected :
   end.
 Proof. exact validate_outcome. Qed.
 Print Assumptions C11_selected.
+
+(* Acceptance is a property of the multiset of messages: no ordering of the same readers is
+   treated differently (the first reader, against which the running-order IDs are compared,
+   plays no special part). *)
+Theorem C11_accept_multiset :
+  forall (rs rs' : list reader) (inc : bool),
+  Permutation rs rs' -> accepts rs inc = accepts rs' inc.
+Proof. exact accepts_perm. Qed.
+Print Assumptions C11_accept_multiset.
